@@ -651,9 +651,10 @@ def _apply_caps(current_node, current_edges, caps):
     return state_node.get_tensor()
 
 
-def _apply_pt_mpos(current_node, current_edges, pt_mpos):
+def _apply_pt_mpos(current_node, current_edges, pt_mpos, reverse=False):
     """
-    Apply MPO for forward propagation step
+    Apply MPO for forward propagation step (in reversed list order if
+    `reverse` is true, as needed for the back propagation)
 
         before mpo application:
             [1]
@@ -686,7 +687,10 @@ def _apply_pt_mpos(current_node, current_edges, pt_mpos):
             |          |
                        |
     """
-    for i, pt_mpo in enumerate(pt_mpos):
+    indexed_pt_mpos = list(enumerate(pt_mpos))
+    if reverse:
+        indexed_pt_mpos.reverse()
+    for i, pt_mpo in indexed_pt_mpos:
         if pt_mpo is None:
             continue
         pt_mpo_node = tn.Node(pt_mpo)
